@@ -116,11 +116,17 @@ class DuplicatingGraph:
 
         Upon completion, the existing computational graph involves only placeholders.
         Note that the placeholders and original tensors point to the same array-data."""
-        if not tensor._view_children:
+        # A recorded view-child that was since disconnected from the family (it
+        # became its own base) is no longer a view of `tensor`
+        root = tensor if tensor._base is None else tensor._base
+        children = [c for c in tensor._view_children if c._base is root]
+
+        if not children:
             self.leafs.add(id(tensor))
+            self[tensor].placeholder._view_children = WeakRefIterable()
             return
 
-        for child in tensor._view_children:
+        for child in children:
             child.null_grad()
             self._record_mapping(
                 original=child,
@@ -133,7 +139,7 @@ class DuplicatingGraph:
             self._duplicate_graph(child)
 
         self[tensor].placeholder._view_children = WeakRefIterable(
-            [self[t].placeholder for t in tensor._view_children]
+            [self[t].placeholder for t in children]
         )
 
     def __init__(self, base: "Tensor"):
